@@ -363,6 +363,15 @@ class Unfold(_JsonMixin, DisjointUnionStrategy[G, Tree]):
             children = self.decomposition_function(c)
         return tuple(obj if i == obj[2] else None for i in range(len(children)))
 
+    def backward_map(self, c: G, objs, children=None):
+        idx = [i for i, o in enumerate(objs) if o is not None]
+        if len(idx) != 1:
+            raise ValueError(f"a union part tuple has exactly one entry: {objs}")
+        i = idx[0]
+        if objs[i][0] != "N" or objs[i][2] != i:
+            raise ValueError(f"parse tree of alternative {objs[i][2]} handed back at position {i}")
+        yield objs[i]
+
 
 class Unit(_JsonMixin, DisjointUnionStrategy[G, Tree]):
     """alternative with a single symbol = that symbol's class (the object is unwrapped)."""
@@ -505,7 +514,7 @@ def g_pack(name: str = "g") -> StrategyPack:
             if "split" not in feats
             else [[Unfold()], [Factor(), Unit()]]
         ),
-        ver_strats=[GAtom()],
+        ver_strats=[] if "nover" in feats else [GAtom()],
         name=name,
         iterative="iter" in feats,
     )
